@@ -5,6 +5,7 @@ import subprocess
 import sys
 
 import common
+from common import to_coq
 import codec_common as CC
 import gen_asn1 as G
 import lib
@@ -65,6 +66,55 @@ def oer_unbounded_array(rt, t, seen=()):
         return any(oer_unbounded_array(rt, m['t'], seen) for m in G.all_members(t))
     if k == 'CHOICE':
         return any(oer_unbounded_array(rt, m['t'], seen) for m in t['root'] + (t['ext'] or []))
+    return False
+
+
+def per_zero_width(rt, t, seen=()):
+    """Can a value of this type have a PER/UPER encoding of zero bits?"""
+    t0 = t
+    while t0['k'] == 'REF':
+        if t0['name'] in seen:
+            return False
+        seen = seen + (t0['name'],)
+        t0 = rt(t0)
+    k = t0['k']
+    if k == 'NULL':
+        return True
+    if k == 'INTEGER':
+        c = t0.get('c')
+        return bool(c) and not c.get('ext') and c.get('lo') is not None and c.get('lo') == c.get('hi')
+    if k == 'ENUMERATED':
+        return t0['ext'] is None and len(t0['root']) == 1
+    if k in ('OCTET STRING', 'STRING', 'BIT STRING'):
+        sz = t0['size']
+        if sz is None or sz['ext'] or sz['lo'] != sz['hi']:
+            return False
+        return sz['lo'] == 0 or (k == 'STRING' and t0.get('alpha') is not None and len(t0['alpha']) == 1)
+    if k in ('SEQUENCE', 'SET'):
+        return t0['ext'] is None and all(m['opt'] is None and per_zero_width(rt, m['t'], seen) for m in t0['root'])
+    if k == 'CHOICE':
+        return t0['ext'] is None and len(t0['root']) == 1 and per_zero_width(rt, t0['root'][0]['t'], seen)
+    if k in ('SEQUENCE OF', 'SET OF'):
+        sz = t0['size']
+        return sz is not None and not sz['ext'] and sz['lo'] == sz['hi'] and \
+            (sz['lo'] == 0 or per_zero_width(rt, t0['elem'], seen))
+    return False
+
+
+def per_unbounded_array(rt, t, seen=()):
+    """Known finding C08 uper-zero-width-array-amplification: a SEQUENCE OF / SET OF of zero-width elements whose
+    count comes from an unconstrained (fragmented) length determinant: 65536 elements per input octet."""
+    k = t['k']
+    if k == 'REF':
+        return False if t['name'] in seen else per_unbounded_array(rt, rt(t), seen + (t['name'],))
+    if k in ('SEQUENCE OF', 'SET OF'):
+        sz = t['size']
+        open_count = sz is None or sz['ext'] or sz['hi'] is None or sz['hi'] >= 65536
+        return (open_count and per_zero_width(rt, t['elem'])) or per_unbounded_array(rt, t['elem'], seen)
+    if k in ('SEQUENCE', 'SET'):
+        return any(per_unbounded_array(rt, m['t'], seen) for m in G.all_members(t))
+    if k == 'CHOICE':
+        return any(per_unbounded_array(rt, m['t'], seen) for m in t['root'] + (t['ext'] or []))
     return False
 
 
@@ -169,6 +219,14 @@ def hostile_inputs(ctx, c, enc, others, n, codec=None):
             d = tlv_hostile(rng, enc)
             if d is None:
                 d = CC.mutate_bytes(rng, enc)
+        elif p < .12:
+            # count amplifiers: a valid prefix followed by a run of maximal fragment markers (PER/UPER) or a huge
+            # quantity / length field (OER, BER)
+            cut = rng.randrange(0, len(enc) + 1)
+            k = rng.choice([3, 16, 200, 1000, 4000])
+            filler = {'uper': b'\xc4', 'per': b'\xc4', 'oer': b'\x84\xff\xff\xff\xff', 'ber': b'\x30\x84\xff\xff\xff\xff',
+                      'der': b'\x30\x84\xff\xff\xff\xff'}.get(codec, b'[')
+            d = (enc[:cut] + filler * k)[:4096] + bytes(rng.randrange(256) for _ in range(rng.choice([0, 1, 4])))
         elif p < .7:
             d = CC.mutate_bytes(rng, enc, rng.choice(others) if others else None)
             if rng.random() < .3:
@@ -179,6 +237,83 @@ def hostile_inputs(ctx, c, enc, others, n, codec=None):
             d = bytes(rng.randrange(256) for _ in range(rng.choice([1000, 4096])))
         out.append(d)
     return out
+
+
+PRIMS = ('read_bit', 'read_bits', 'read_non_negative_binary_integer', 'skip_bits')
+
+
+def python_primitive_reads(spec, tname, data):
+    """Number of primitive read calls per.Decoder performs while decoding [data] (success or error): the quantity the
+    cost model's unit over-approximates.  Counted by wrapping the four leaf readers for the duration of one call."""
+    import asn1tools.codecs.per as P
+    count = [0]
+    saved = {}
+    depth = [0]
+
+    def wrap(name):
+        f = getattr(P.Decoder, name)
+        saved[name] = f
+
+        def g(self, *a):
+            if depth[0] == 0:
+                count[0] += 1
+            depth[0] += 1
+            try:
+                return f(self, *a)
+            finally:
+                depth[0] -= 1
+        setattr(P.Decoder, name, g)
+    for n in PRIMS:
+        wrap(n)
+    try:
+        out = lib.attempt(spec.decode, tname, data)
+    finally:
+        for n, f in saved.items():
+            setattr(P.Decoder, n, f)
+    return count[0], out
+
+
+def cost_tie(ctx, cm, items):
+    """Ties the step count of Per/UperCost.v to the code: on the same inputs the model's count is never below the
+    number of primitive reads Python performs, and (theorem C08_uper_decode_cost_bound, re-evaluated here as a
+    sanity check of the printed numbers) never above K * (8 * octets + 1)."""
+    rows = []
+    for c, data in items:
+        spec = lib.compile_string(c.text, cm.CODEC, numeric_enums=c.numeric)
+        n, out = python_primitive_reads(spec, c.tname, data)
+        rows.append((c, data, n, out))
+    shards, index = [], []
+    for s0 in range(0, len(rows), 60):
+        part = rows[s0:s0 + 60]
+        envs, lines, cells = {}, [], []
+        for c, data, n, out in part:
+            key = (id(c.mod), c.numeric)
+            if key not in envs:
+                envs[key] = 'env%d' % len(envs)
+                lines.append('Definition %s : env := %s.' % (envs[key], to_coq(G.coq_env(c.mod, c.numeric))))
+            ty = to_coq(G.coq_type(c.rt, c.t, c.numeric))
+            cells.append('(Z.of_N (snd (uper_decode_cost %s 40 %s %s %s)), Z.of_N (K %s 40 %s))' % (
+                'true' if c.numeric else 'false', envs[key], ty, to_coq(bytes(data)), envs[key], ty))
+        lines.append('Eval vm_compute in [%s].' % ';\n '.join(cells))
+        shards.append('\n'.join(lines) + '\n')
+        index.append(part)
+    res = CC.run_shards(ctx, 'cost_uper', ['Base.Prelude', 'Base.Corr', 'Syntax.Asn1'] + cm.COQ_IMPORTS +
+                        ['Per.UperCost', 'Per.UperCostProofs'], shards)
+    worst = 0.0
+    for part, r in zip(index, res):
+        (cells,) = r
+        for (c, data, n, out), (cost, k) in zip(part, cells):
+            ctx.evaluations += 1
+            ctx.count('cost-tie:%s' % ('value' if out[0] == 'ok' else out[1]))
+            if cost:
+                worst = max(worst, n / float(cost))
+            rep = c.replay(codec='uper', kind='cost-tie', data=data.hex(), python_reads=n, model_cost=cost, K=k)
+            if n > cost:
+                ctx.violation('uper: Python performs %d primitive reads on a %d-octet input, the cost model of '
+                              'Per/UperCost.v counts only %d steps' % (n, len(data), cost), rep)
+            if cost > k * (8 * len(data) + 1):
+                ctx.violation('uper: model cost %d exceeds K * (8 * octets + 1) = %d' % (cost, k * (8 * len(data) + 1)), rep)
+    ctx.extra['cost_tie_max_python_reads_per_model_step'] = round(worst, 3)
 
 
 def run(ctx):
@@ -209,6 +344,9 @@ def run(ctx):
         for c in cases:
             if codec == 'oer' and oer_unbounded_array(c.rt, c.t):
                 ctx.count('hostile:oer:skipped-known-finding-region')
+                continue
+            if codec in ('uper', 'per') and per_unbounded_array(c.rt, c.t):
+                ctx.count('hostile:%s:skipped-known-finding-region' % codec)
                 continue
             spec = lib.attempt(lib.compile_string, c.text, codec)
             if spec[0] != 'ok':
@@ -259,6 +397,8 @@ def run(ctx):
                               % (codec, r['sentinel'][:120]), rep)
     for codec, items in corr_items.items():
         CC.corr_decode_bytes(ctx, mods[codec], items[:400 if ctx.quick else 4000], tag='corr-hostile')
+    if 'uper' in mods:
+        cost_tie(ctx, mods['uper'], corr_items['uper'][:120 if ctx.quick else 1500])
     ctx.extra['max_decode_seconds'] = max([r['dt'] for r in results.values()] or [0])
     for f in common.load_findings(ctx.pid):
         w = f['witness']
